@@ -10,7 +10,7 @@ open Nstd.Generated
 
 /-- one `Transform` call is the FIPS compression function (statement of `transform_eq_fips`) -/
 def TransformOK : Prop :=
-  ∀ st data : List UInt32, st.length = 8 → data.length = 16 → transform st data = Spec.compress st data
+  ∀ st data : List UInt32, st.length = 8 → data.length = 16 → transform st data = (Spec.compress st data, true)
 
 /-! ### the spec's block iteration -/
 
@@ -62,7 +62,7 @@ theorem specH0_length : Spec.H0.length = 8 := by decide +kernel
 def Inv (m : List UInt8) (p : Sha) : Prop :=
   ∃ full tail rest, m = full ++ tail ∧ full.length % 64 = 0 ∧ p.buffer = tail ++ rest ∧
     tail.length + rest.length = 64 ∧ 0 < rest.length ∧
-    p.state = Spec.hashBlocks Spec.H0 full ∧ p.count.toNat = m.length
+    p.state = Spec.hashBlocks Spec.H0 full ∧ p.count.toNat = m.length ∧ p.ok = true
 
 theorem set_mid {α : Type} (xs : List α) (y b : α) (ys : List α) :
     (xs ++ y :: ys).set xs.length b = (xs ++ [b]) ++ ys := by
@@ -70,14 +70,22 @@ theorem set_mid {α : Type} (xs : List α) (y b : α) (ys : List α) :
   simp
 
 theorem inv_init : Inv [] init := by
-  refine ⟨[], [], List.replicate 64 0, rfl, rfl, rfl, by simp, by simp, ?_, ?_⟩
+  refine ⟨[], [], List.replicate 64 0, rfl, rfl, rfl, by simp, by simp, ?_, ?_, rfl⟩
   · simp [init, reset, genH0_eq, hashBlocks_lt]
   · simp [init, reset, genCount0_eq]
 
-theorem inv_reset (p : Sha) (h : p.buffer.length = 64) : Inv [] (reset p) := by
-  refine ⟨[], [], p.buffer, rfl, rfl, rfl, by simpa using h, by omega, ?_, ?_⟩
+theorem inv_reset (p : Sha) (h : p.buffer.length = 64) (hok : p.ok = true) : Inv [] (reset p) := by
+  refine ⟨[], [], p.buffer, rfl, rfl, rfl, by simpa using h, by omega, ?_, ?_, hok⟩
   · simp [reset, genH0_eq, hashBlocks_lt]
   · simp [reset, genCount0_eq]
+
+/-- `WriteByteBlock` on a well-formed object: one FIPS compression of the buffer, no read out of range -/
+theorem writeByteBlock_eq (htr : TransformOK) (p : Sha) (hs : p.state.length = 8) (hb : p.buffer.length = 64) :
+    writeByteBlock p = { p with state := Spec.compress p.state (Spec.blockWords p.buffer) } := by
+  have hT := htr _ _ hs (data32_length p.buffer)
+  unfold writeByteBlock
+  rw [hT]
+  simp only [data32ok_eq _ hb, Bool.and_true, data32_eq]
 
 theorem updateLoop_inv (htr : TransformOK) : ∀ (data m : List UInt8) (p : Sha), Inv m p →
     m.length + data.length < 2 ^ 64 → Inv (m ++ data) (updateLoop data (m.length % 64) p) := by
@@ -86,7 +94,7 @@ theorem updateLoop_inv (htr : TransformOK) : ∀ (data m : List UInt8) (p : Sha)
   | nil => intro m p h _; simpa [updateLoop] using h
   | cons b data ih =>
     intro m p h hlen
-    obtain ⟨full, tail, rest, hm, hfull, hbuf, hsz, hrest, hst, hcnt⟩ := h
+    obtain ⟨full, tail, rest, hm, hfull, hbuf, hsz, hrest, hst, hcnt, hok⟩ := h
     have hcur : m.length % 64 = tail.length := by
       have : m.length = full.length + tail.length := by rw [hm]; simp
       omega
@@ -109,15 +117,15 @@ theorem updateLoop_inv (htr : TransformOK) : ∀ (data m : List UInt8) (p : Sha)
     · simp only [hc, if_true]
       have hr' : rest' = [] := List.eq_nil_of_length_eq_zero (by omega)
       subst hr'
+      have hst8 : p.state.length = 8 := by
+        rw [hst]; exact hashBlocks_length _ _ rfl _ specH0_length
       have hI : Inv (m ++ [b]) (writeByteBlock { p with buffer := tail ++ [b] ++ [], count := p.count + 1 }) := by
-        refine ⟨full ++ (tail ++ [b]), [], tail ++ [b], by simp [hm], by simp; omega, by simp [writeByteBlock],
-          by simp; omega, by simp, ?_, by simp [writeByteBlock, hcount]⟩
+        rw [writeByteBlock_eq htr { p with buffer := tail ++ [b] ++ [], count := p.count + 1 } hst8 (by simp; omega)]
+        refine ⟨full ++ (tail ++ [b]), [], tail ++ [b], by simp [hm], by simp; omega, by simp,
+          by simp; omega, by simp, ?_, by simp [hcount], hok⟩
         have hfl : full.length = 64 * (full.length / 64) := by omega
-        have hst8 : p.state.length = 8 := by
-          rw [hst]; exact hashBlocks_length _ _ rfl _ specH0_length
-        simp only [writeByteBlock, List.append_nil]
-        rw [htr _ _ hst8 (data32_length _), data32_eq, hashBlocks_append _ full hfl,
-          hashBlocks_block (by simp; omega), hst]
+        simp only [List.append_nil]
+        rw [hashBlocks_append _ full hfl, hashBlocks_block (by simp; omega), hst]
       have h0 : (m ++ [b]).length % 64 = 0 := by
         have : m.length = full.length + tail.length := by rw [hm]; simp
         simp only [List.length_append, List.length_cons, List.length_nil]; omega
@@ -126,7 +134,7 @@ theorem updateLoop_inv (htr : TransformOK) : ∀ (data m : List UInt8) (p : Sha)
       rw [hmb]; exact this
     · simp only [hc, if_false]
       have hI : Inv (m ++ [b]) { p with buffer := tail ++ [b] ++ rest', count := p.count + 1 } := by
-        refine ⟨full, tail ++ [b], rest', by simp [hm], hfull, rfl, by simp; omega, ?_, hst, by simp [hcount]⟩
+        refine ⟨full, tail ++ [b], rest', by simp [hm], hfull, rfl, by simp; omega, ?_, hst, by simp [hcount], hok⟩
         cases rest' with
         | nil => simp at hsz; omega
         | cons _ _ => simp
@@ -140,7 +148,7 @@ theorem updateLoop_inv (htr : TransformOK) : ∀ (data m : List UInt8) (p : Sha)
 theorem update_inv (htr : TransformOK) (m data : List UInt8) (p : Sha) (h : Inv m p)
     (hlen : m.length + data.length < 2 ^ 64) : Inv (m ++ data) (update p data) := by
   have hc : p.count.toNat = m.length := by
-    obtain ⟨_, _, _, _, _, _, _, _, _, hcnt⟩ := h; exact hcnt
+    obtain ⟨_, _, _, _, _, _, _, _, _, hcnt, _⟩ := h; exact hcnt
   unfold update
   rw [bufferPos_eq, hc]
   exact updateLoop_inv htr data m p h hlen
